@@ -141,13 +141,22 @@ func c17Run(r *verdict.Run, e *emu, cs c17Case, rng *rand.Rand) {
 	defer mut.Close()
 	mut.Timeout = 60 * time.Second
 	const coll = "coll"
+	used24 := map[uint64]bool{}
 	names := func(prefix string, n int) []string {
 		if cs.adverse > 0 && n >= 2 {
 			return adversarialNames(rng, prefix, n, cs.adverse)
 		}
 		out := make([]string, n)
 		for i := range out {
-			out[i] = fmt.Sprintf("%s%d-%x", prefix, i, rng.Int31())
+			for {
+				out[i] = fmt.Sprintf("%s%d-%x", prefix, i, rng.Int31())
+				// two names of one collection that share 24+ low hash bits would make the emulator's collision-free table
+				// grow to hundreds of MiB or fail (the known dictionary finding, C04): not this check's subject
+				if low := sutHash(out[i]) & (1<<24 - 1); !used24[low] {
+					used24[low] = true
+					break
+				}
+			}
 		}
 		return out
 	}
@@ -619,8 +628,8 @@ func checkC17(r *verdict.Run) {
 	base := cases
 	variants := tierPick(r, 5, 12)
 	for _, c := range base {
-		if c.size == 0 {
-			continue
+		if c.size == 0 || c.size > 400 {
+			continue // (the big collections run the base plan only: their tables take seconds to build)
 		}
 		for v := 0; v < variants; v++ {
 			c2 := c
